@@ -183,7 +183,7 @@ LINEAR = {
     'dynamic_slice': [0], 'dynamic_update_slice': [0, 1], 'gather': [0], 'scatter': [0, 2],
     'scatter-add': [0, 2], 'scatter_add': [0, 2], 'reduce_sum': [0], 'cumsum': [0], 'unstack': [0],
     'split': [0], 'neg': [0], 'convert_element_type': [0], 'real': [0], 'imag': [0],
-    'reduce_precision': [0], 'tile': [0], 'roll': [0], 'diagonal': [0], 'triu': [0], 'tril': [0],
+    'reduce_precision': [0], 'csr_todense': [0], 'coo_todense': [0], 'bcoo_todense': [0], 'tile': [0], 'roll': [0], 'diagonal': [0], 'triu': [0], 'tril': [0],
 }
 BILINEAR = {'dot_general': (0, 1), 'conv_general_dilated': (0, 1), 'csr_matvec': (0, 3),
             'csr_matmat': (0, 3)}
